@@ -317,7 +317,9 @@ func srtFields(d []byte) []Field {
 	return f
 }
 
-func srtSeeds() []*Seed {
+func srtSeeds() []*Seed { return srtSeedsFor(false) }
+
+func srtSeedsFor(open bool) []*Seed {
 	ind := &srtpacket.CIFHandshake{
 		IsRequest: true, Version: 4, ExtensionField: 2,
 		InitialPacketSequenceNumber: circular.New(0, srtpacket.MAX_SEQUENCENUMBER),
@@ -348,10 +350,20 @@ func srtSeeds() []*Seed {
 		}
 		c.PeerIP.FromNetAddr(&net.UDPAddr{IP: net.IPv4(127, 0, 0, 1), Port: 1})
 		cb := srtPacket(c)
-		return &Seed{Listener: "srt", Name: name, Transport: tSRT, Port: pSRT, Thorough: thorough, Msgs: []Msg{
+		return &Seed{Listener: "srt", Name: name, Transport: tSRT, Port: pSRT, Thorough: thorough, Open: open, Msgs: []Msg{
 			{Name: "induction", Data: indB, Fields: srtFields(indB), Covered: covered},
 			{Name: "conclusion", Data: cb, Fields: srtFields(cb)},
 		}}
+	}
+	if open {
+		// read stream ids in both syntaxes on the path that has a stream, publish below the open prefix; the
+		// induction packet is covered by the closed world
+		return []*Seed{
+			mk("open-read-legacy", "read:"+openReadPath, true, false, true),
+			mk("open-read-standard", "#!::m=request,r="+openReadPath, true, false, true),
+			mk("open-publish-legacy", "publish:"+openPubPrefix+"srt", true, false, true),
+			mk("open-publish-standard", "#!::r="+openPubPrefix+"srt2,m=publish,h=host,t=stream", true, false, true),
+		}
 	}
 	return []*Seed{
 		mk("publish-legacy", "publish:cam:user:pass", true, false, false),
@@ -464,7 +476,17 @@ func moqCtl(name string, d []byte, stream int, strs ...string) Msg {
 	return m
 }
 
-func moqSeeds() []*Seed {
+func moqSeeds() []*Seed { return moqSeedsFor(false) }
+
+// moqSeedsFor(false): the closed world (path cam, nobody is authorized). moqSeedsFor(true): the open world - SUBSCRIBE
+// on the path that has a live stream, PUBLISH below the prefix where anyone may publish; two protocol versions.
+func moqSeedsFor(open bool) []*Seed {
+	readURL, pubURL, pubURLW, prefix := "/cam?user=a", "/cam?user=a", "/cam/moq", ""
+	alpns := []string{"moqt-19", "moqt-16", "moqt-18", "moqt-17"}
+	if open {
+		readURL, pubURL, pubURLW, prefix = "/"+openReadPath, "/"+openPubPrefix+"moq", "/"+openPubPrefix+"moqw/moq", "open-"
+		alpns = alpns[:2]
+	}
 	tok := &parameter.AuthorizationToken{AliasType: parameter.AuthorizationTokenAliasTypeUseValue, TokenType: 1,
 		TokenValue: []byte("Basic bXl1c2VyOm15cGFzcw==")}
 	catJSON, _ := json.Marshal(catalog.Catalog{Version: 1, Tracks: []catalog.Track{
@@ -481,7 +503,7 @@ func moqSeeds() []*Seed {
 		Objects: []subgroup.Object{{Payload: []byte{0, 0, 0, 1, 0x65, 0x88, 0x84}}}}).Marshal()
 
 	var out []*Seed
-	for vi, alpn := range []string{"moqt-19", "moqt-16", "moqt-18", "moqt-17"} {
+	for vi, alpn := range alpns {
 		setup := func(path string) Msg {
 			if alpn == "moqt-16" {
 				return moqCtl("CLIENT_SETUP", controlmessage.ClientSetup(controlmessage.Setup{Path: path, Authority: "127.0.0.1"}).Marshal(), 1, path, "127.0.0.1")
@@ -496,10 +518,10 @@ func moqSeeds() []*Seed {
 		pubTrack := moqCtl("PUBLISH-track", controlmessage.Publish{RequestID: 2, TrackName: "0", TrackAlias: 1}.Marshal(), 1)
 		cov := func(m Msg) Msg { m.Covered = true; return m }
 		out = append(out,
-			&Seed{Listener: "moq-quic", Name: alpn + "-subscribe", Transport: tMoQ, Port: pMoQQUIC, ALPN: alpn, Thorough: true,
-				Msgs: []Msg{setup("/cam?user=a"), sub, subTrack}},
-			&Seed{Listener: "moq-quic", Name: alpn + "-publish", Transport: tMoQ, Port: pMoQQUIC, ALPN: alpn, Thorough: true,
-				Msgs: []Msg{cov(setup("/cam?user=a")), func() Msg {
+			&Seed{Listener: "moq-quic", Name: prefix + alpn + "-subscribe", Transport: tMoQ, Port: pMoQQUIC, ALPN: alpn, Thorough: true, Open: open,
+				Msgs: []Msg{setup(readURL), sub, subTrack}},
+			&Seed{Listener: "moq-quic", Name: prefix + alpn + "-publish", Transport: tMoQ, Port: pMoQQUIC, ALPN: alpn, Thorough: true, Open: open,
+				Msgs: []Msg{cov(setup(pubURL)), func() Msg {
 					if vi >= 2 {
 						return cov(catMsg)
 					}
@@ -510,13 +532,15 @@ func moqSeeds() []*Seed {
 			// WebTransport: the path comes from the CONNECT request, SETUP carries no options
 			wsetup := moqCtl("SETUP", controlmessage.Setup{}.Marshal(), 0)
 			out = append(out,
-				&Seed{Listener: "moq-webtransport", Name: alpn + "-subscribe", Transport: tMoQW, Port: pMoQHTTP, ALPN: alpn, URL: "/cam?user=a", Thorough: true,
+				&Seed{Listener: "moq-webtransport", Name: prefix + alpn + "-subscribe", Transport: tMoQW, Port: pMoQHTTP, ALPN: alpn, URL: readURL, Thorough: true, Open: open,
 					Msgs: []Msg{wsetup, sub, cov(subTrack)}},
-				&Seed{Listener: "moq-webtransport", Name: alpn + "-publish", Transport: tMoQW, Port: pMoQHTTP, ALPN: alpn, URL: "/cam/moq", Thorough: true,
+				&Seed{Listener: "moq-webtransport", Name: prefix + alpn + "-publish", Transport: tMoQW, Port: pMoQHTTP, ALPN: alpn, URL: pubURLW, Thorough: true, Open: open,
 					Msgs: []Msg{cov(wsetup), catMsg, pub, cov(pubTrack)}},
-				&Seed{Listener: "moq-webtransport", Name: alpn + "-setup-with-path", Transport: tMoQW, Port: pMoQHTTP, ALPN: alpn, URL: "/cam", Thorough: true,
-					Msgs: []Msg{cov(setup("/cam?user=a")), cov(sub)}},
 			)
+			if !open {
+				out = append(out, &Seed{Listener: "moq-webtransport", Name: alpn + "-setup-with-path", Transport: tMoQW, Port: pMoQHTTP, ALPN: alpn, URL: "/cam", Thorough: true,
+					Msgs: []Msg{cov(setup("/cam?user=a")), cov(sub)}})
+			}
 		}
 	}
 	return out
